@@ -411,6 +411,19 @@ def run(tier, seed):
             else:
                 n_unsupported += 1
             continue
+        # the part of speech a note NAMES is the part of speech of what is emitted for it (the tag names written down here from the notes'
+        # vocabulary: 形容詞, 形容動詞, 副詞, 助数詞, 感動詞, 連体詞, 接続助詞, 接続詞, the noun tags, the verb classes)
+        def kind_of(sp):
+            if isinstance(sp, str):
+                return {"PreNounAdjectival": "PreNoun"}.get(sp, sp)
+            if isinstance(sp, dict) and len(sp) == 1:
+                (k_, v_), = sp.items()
+                return "ConjParticle" if (k_, v_) == ("Particle", "Conjunctive") else k_
+            return "?"
+        named, emitted_kinds = {e["speech"]["k"] for e in want["entries"]}, {kind_of(em["speech"]) for em in cv} - {"Affix"}      # a [<] / [>] class adds the word as a suffix / prefix too
+        if named != emitted_kinds:
+            res.violation(f"the note {l!r} names the parts of speech {sorted(named)} but the converter emits {sorted(emitted_kinds)}: {[em['line'] for em in cv][:6]!r}",
+                          {"kind": "note_speech", "line": l, "named": sorted(named), "emitted": [em["line"] for em in cv]})
         for em in cv:
             n_emitted += 1
             if not check_emitted(res, "notes converter", l, em, em["headword"], em["word"], em["speech"]):
